@@ -79,6 +79,18 @@ def expected_group(shape, scale_axis, eps):
   the scale axis of extent d is split into d/eps blocks of eps consecutive elements (block index in place of the axis,
   the position inside the block right after it); one scale per block, i.e. everything but the block index is reduced."""
   rank = len(shape)
+  if isinstance(scale_axis, list):
+    # several scale axes (ascending), one block size each: every axis is split in place, the block indexes are kept
+    es = eps if isinstance(eps, list) else [eps] * len(scale_axis)
+    view, keep = [], []
+    for i, d in enumerate(shape):
+      if i in scale_axis:
+        e = es[scale_axis.index(i)]
+        keep.append(len(view))
+        view.extend([d // e, e])
+      else:
+        view.append(d)
+    return tuple(view), tuple(i for i in range(len(view)) if i not in keep)
   a = rank - 1 if scale_axis is None else scale_axis
   view = tuple(shape[:a]) + (shape[a] // eps, eps) + tuple(shape[a + 1:])
   return view, tuple(i for i in range(len(view)) if i != a)
@@ -102,6 +114,8 @@ def binary_scenario(alpha_kind, use_01, shape, scale_axis=None, bounds_po2=None,
       kw["scale_axis"] = scale_axis
     if eps is not None:
       kw["elements_per_scale"] = eps
+      import pyvc.values as _V
+      _V.STRICT_SHAPES[0] = True        # the reshape / repeat of the grouping must produce shapes that broadcast
     lo = hi = None
     if bounds_po2:
       # bounds_po2: True/"both", "min" (only min_po2_exponent configured) or "max"
@@ -189,6 +203,33 @@ def binary_scenario(alpha_kind, use_01, shape, scale_axis=None, bounds_po2=None,
   return scenario
 
 
+TERNARY_AUTO_SPEC = """
+import numpy as np
+import tensorflow as tf
+import tensorflow.keras.backend as K
+from qkeras.quantizers import _round_through
+from qkeras.quantizers import _get_least_squares_scale
+
+
+def ternary_auto_spec(x, alpha, axis, rounds):
+  # the documented iteration (ternary weight networks, arXiv 1605.04711, as described in ternary's docstring and
+  # comments): start from scale = 2 max|x| / 3 (rounded to a power of two for auto_po2); in every round the code is
+  # sign(x) where the magnitude, rounded to thirds of the CURRENT scale, reaches HALF THE CURRENT scale, and the scale
+  # becomes the least-squares optimum for that code
+  m = K.max(tf.abs(x), axis=axis, keepdims=True)
+  scale = 2 * m / 3.0
+  if "po2" in alpha:
+    scale = K.pow(2.0, tf.math.round(K.log(scale + K.epsilon()) / np.log(2.0)))
+  q = None
+  for _ in range(rounds):
+    thres = scale / 2.0
+    v = scale * _round_through(x / scale, use_stochastic_rounding=False, precision=1. / 3.)
+    q = K.cast(tf.abs(v) >= thres, K.floatx()) * tf.sign(x)
+    scale = _get_least_squares_scale(alpha, x, q)
+  return scale * q, scale
+"""
+
+
 def ternary_scenario(alpha_kind, thr_kind, shape, cls="ternary"):
   def scenario(ip):
     s = Scen()
@@ -234,7 +275,19 @@ def ternary_scenario(alpha_kind, thr_kind, shape, cls="ternary"):
       if t is None:
         s.claim("default_threshold", thr == zreal(0.33))
       return s
-    # auto / auto_po2: weights
+    # auto / auto_po2: weights.  Operational postcondition: the result and the exposed scale are those of the documented
+    # iteration (executed by the same interpreter on the same input, so the group reductions are the same terms)
+    if cls == "ternary":
+      sm = ip.load_source("c04_ternary_auto_spec", TERNARY_AUTO_SPEC)
+      rank_ = len(shape)
+      axis_ = None if rank_ == 1 else list(range(rank_ - 1))
+      rounds = ip.getattr(q, "number_of_unrolls")
+      rs = run_call(ip, sm.env.vars["ternary_auto_spec"], [x, alpha_kind, axis_, rounds])
+      if rs[0] == "return":
+        s.claim("documented_iteration", z3.And(ret == Q.num_value(rs[1][0]), sce == Q.num_value(rs[1][1])))
+      else:
+        s.info["raised"] = "spec: %s" % (rs[1],)
+        s.claim("documented_iteration", False)
     used = apply_mean_lemmas(ip, xe)
     s.info["lemmas"] = used
     code = z3.Real("code")
@@ -275,8 +328,10 @@ def cases(tier):
                         lo=-40, hi=40))
   # requires (documented, asserted by _validate_axis_and_eps): scale_axis is set whenever elements_per_scale is used
   for ak, shape, sa, eps in (("auto", (3, 4), 1, 2), ("auto_po2", (3, 4), 1, 2), ("auto", (4, 6), 0, 2),
-                             ("auto", (2, 2, 3, 4), 3, 2)):
-    out.append(Case(PROP, B, "alpha-%s_eps%d%s_rank%d" % (ak, eps, "" if sa is None else "_scale_axis%d" % sa, len(shape)),
+                             ("auto", (2, 2, 3, 4), 3, 2), ("auto", (4, 6), [0, 1], [2, 3]), ("auto", (2, 4, 6), [1, 2], 2)):
+    out.append(Case(PROP, B, "alpha-%s_eps%s%s_rank%d" % (ak, str(eps).replace(", ", "x").strip("[]"),
+                                                          "" if sa is None else "_scale_axis%s" % str(sa).replace(", ", "x").strip("[]"),
+                                                          len(shape)),
                     binary_scenario(ak, False, shape, scale_axis=sa, eps=eps), replay_kind="c04", assumptions=ASSUME,
                     bounds=bounds, lo=-40, hi=40))
   out.append(Case(PROP, B, "alpha-auto_scale_axis0_rank2", binary_scenario("auto", False, (3, 4), scale_axis=0),
